@@ -26,7 +26,7 @@ PROP = dict(
                            "state:frame-with-full-block": 5000, "raw:missing-buffer-on-terminate": 3000,
                            "raw:front-removed": 5000, "decode:runs-with-missing-buffer": 3000,
                            "state:array-buffer-exactly-full": 50}),
-              dict(name="c01_cxx", src=["c01_cxx.cpp"], libs=["mpt++", "mptio", "mptplot", "mptcore"], batch=256, timeout=40,
+              dict(name="c01_cxx", memcheck=500, src=["c01_cxx.cpp"], libs=["mpt++", "mptio", "mptplot", "mptcore"], batch=256, timeout=40,
                    floors={"encode_array::push": 200000, "encode_array::push(message)": 2000, "encode_array::data": 10000,
                            "monitor:library-decode-compare": 10000}),
               dict(name="c01_python", src=["c01_python.c"], libs=["mptcore"], batch=64, timeout=40,
